@@ -28,7 +28,7 @@ VERUS_PROPS = {
     "C01": dict(units=ALL_TYPES + ["Spec", "Dual__Dual"], thorough=["Dual__Dual__Dual"]),
     "C02": dict(units=ALL_TYPES + ["Derivative", "Dual__Dual"], thorough=["Dual__Dual__Dual"]),
     "C03": dict(units=ALL_TYPES + ["Spec", "Derivative", "Dual__Dual"], thorough=["Dual__Dual__Dual"]),
-    "C04": dict(units=["Spec", "Dual", "Dual2", "HyperDual", "Dual__Dual", "Derivative"] + pl.VECTOR_UNITS, thorough=["Dual3", "HyperHyperDual", "Dual__Dual__Dual"]),
+    "C04": dict(units=["Spec", "Dual", "Dual2", "HyperDual", "Dual3", "HyperHyperDual", "Dual__Dual", "Derivative"] + pl.VECTOR_UNITS, thorough=["Dual__Dual__Dual"]),
     "C06": dict(units=ALL_TYPES + ["F64"]),
     "C07": dict(units=pl.VECTOR_UNITS + ["Derivative"]),
     "C08": dict(units=ALL_TYPES),
